@@ -227,7 +227,7 @@ def agrees_grid(quick, c, pre, method, active):
 def obligations(tier, seed):
     obs = []
     ncell = len(grid_cells(tier))
-    for pre_, m in ((0, 0), (2, 0), (3, 0), (0, 1)) if tier == "quick" else [(0, 0), (1, 0), (2, 0), (3, 0), (0, 1), (3, 1)]:
+    for pre_, m in ((0, 0), (2, 0), (3, 0), (0, 1)) if tier == "quick" else [(0, 0), (2, 0), (3, 0), (0, 1)]:
         for lo in range(0, ncell, 32):
             hi = min(lo + 32, ncell)
             if tier == "quick" and (pre_, m, lo // 32) not in ((0, 0, 0), (0, 0, 1), (3, 0, 0), (2, 0, 1), (0, 1, 1)):
